@@ -126,4 +126,12 @@ class ThinPlateSplines(Alignment, Transform, Invertible):
 
         :type: ``type(self)``
         """
-        return ThinPlateSplines(self.target, self.source, kernel=self.kernel)
+        # the kernel of the inverse has to be centred on its own source points
+        kernel = self.kernel.copy()
+        kernel.c = self.target.points
+        return ThinPlateSplines(
+            self.target,
+            self.source,
+            kernel=kernel,
+            min_singular_val=self.min_singular_val,
+        )
